@@ -542,7 +542,7 @@ def gen_history(rng):
 
 
 def section_histories(ctx):
-    n = ctx.pick(26, 1200)
+    n = ctx.pick(26, 700)
     hists = FIXED + [gen_history(ctx.rng) for _ in range(n)]
     reqs, impl, cases = [], [], []
     with common.scratch_dir():
@@ -978,7 +978,7 @@ def run_absent_jobs(jobs):
 
 
 def section_absent(ctx, only=None):
-    n = ctx.pick(10, 120)
+    n = ctx.pick(10, 80)
     jobs = [(ctx.rng.getrandbits(48), hi) for hi in range(n)] if only is None else [tuple(only)]
     results = run_absent_jobs(jobs)
     reqs, impl, cases = [], [], []
@@ -1011,7 +1011,7 @@ def section_locations(ctx):
     from armi.bookkeeping.db.layout import Layout
     rng = ctx.rng
     reqs, impl, cases = [], [], []
-    nh = ctx.pick(6, 80)
+    nh = ctx.pick(6, 40)
     with common.scratch_dir():
         # ---- excluded point (known finding unless repaired): NONE of the requested locations is occupied at a requested step
         with common.quiet():
@@ -1682,7 +1682,7 @@ def section_crashes(ctx):
             cfg = shape_cfg(shape, pos)
             plan.append((shape, pos, cfg))
     # arbitrary stacks: bystanders, flags, orders, with and without main
-    for vi in range(ctx.pick(5, 30)):
+    for vi in range(ctx.pick(5, 20)):
         shape = ctx.rng.choice(shapes)
         var = gen_variant(ctx.rng, main=(vi % 3 != 2))      # every third one without main: the database interface opens the file
         plan.append((shape, var, shape_cfg(shape, var)))
